@@ -145,6 +145,9 @@ def _kind_of(op):
 
 
 def impl(op, a):
+    if 1306 <= op <= 1309:
+        from harness.props import c06h
+        return c06h.impl(op, a)
     kn, sub = _kind_of(op)
     if kn is not None:
         k = KINDS[kn]
@@ -546,6 +549,10 @@ def streams(tier, rng):
         if rng.random() < 0.3:
             cases.append((B[rng.choice(list(KINDS))] + 3, [d]))
     yield "garbage", "verdict", cases
+    # 10. operation histories (harness/props/c06h.py, model Run/DirHist.v)
+    from harness.props import c06h
+    for st in c06h.streams_for(["eof", "ack", "prompt", "ka"], tier, rng, "a"):
+        yield st
 
 
 # ------------------------------------------------------------------ oracle
@@ -594,6 +601,9 @@ def _check_decoded(kn, name, b, ires):
 def oracle(case, ires, sres):
     """The property itself, evaluated on the implementation's observable behaviour."""
     op, a = case
+    if 1306 <= op <= 1309:
+        from harness.props import c06h
+        return c06h.oracle(case, ires, sres)
     err = ires[0][0] == 1
     code = ires[0][1] if err else None
     kn, sub = _kind_of(op)
